@@ -1082,7 +1082,13 @@ impl<'r> Gen<'r> {
                 let narms = self.rng.range(1, 3);
                 let mut arms = Vec::new();
                 for _ in 0..narms {
-                    let (re, groups) = *self.rng.pick(REGEX_POOL);
+                    let (re, groups) = if self.rng.chance(1, 40) {
+                        // passes the static check but can match the empty string in context
+                        self.feature("word_boundary_arm");
+                        ("\\b", 1)
+                    } else {
+                        *self.rng.pick(REGEX_POOL)
+                    };
                     let saved = ctx.regex_groups.replace(groups);
                     let was = ctx.in_loop;
                     ctx.in_loop = true;
